@@ -313,7 +313,8 @@ The bool indicates if the series was found. If the series is not found, the iter
 Internally, looks up the tsid in the .tso file and returns a TimeSeriesIterator after loading the csg at the read offset
 This function will keep the encoded csg values as a []byte
 */
-func (tsbr *TimeSeriesBlockReader) GetTimeSeriesIterator(tsid uint64) (*compress.DecompressIterator, bool, error) {
+func (tsbr *TimeSeriesBlockReader) GetTimeSeriesIterator(tsid uint64) (_ *compress.DecompressIterator, _ bool, retErr error) {
+	defer utils.RecoverToError(&retErr, "GetTimeSeriesIterator")
 	// load tso/tsg file as needd
 
 	var found bool
@@ -401,7 +402,8 @@ func loadFileIntoPoolBuffer(fileName string, bufferFromPool []byte) error {
 	return nil
 }
 
-func (tssr *TimeSeriesSegmentReader) loadTSOFile(fileName string) (byte, []byte, uint64, error) {
+func (tssr *TimeSeriesSegmentReader) loadTSOFile(fileName string) (_ byte, _ []byte, _ uint64, retErr error) {
+	defer utils.RecoverToError(&retErr, "loadTSOFile: "+fileName)
 
 	err := loadFileIntoPoolBuffer(fileName, tssr.tsoBuf)
 	if err != nil {
